@@ -72,6 +72,26 @@ def parseGItem (j : Json) : Except String GItem := do
     | .ok v => some <$> parseRef16 v
   pure { name := name, vt := vt, rel := rel, value := value, graphic := graphic, ref := ref, kids := [] }
 
+def parseKid (j : Json) : Except String Kid := do
+  let ref ← match j.getObjVal? "ref" with
+    | .error _ => pure none
+    | .ok .null => pure none
+    | .ok v => some <$> parseRef16 v
+  pure ⟨← getStr j "name", ← getStr j "vt", ← getStr j "rel", ref⟩
+
+def parseGItemFull (j : Json) : Except String GItem := do
+  let it ← parseGItem j
+  let kids ← match j.getObjVal? "kids" with
+    | .error _ => pure []
+    | .ok .null => pure []
+    | .ok v => do let a ← v.getArr?; a.toList.mapM parseKid
+  pure { it with kids := kids }
+
+def parseGroup (j : Json) : Except String Group := do
+  let tid ← optStr16 j "template_id"
+  let items ← (← getArr j "items").toList.mapM parseGItemFull
+  pure ⟨tid, items⟩
+
 def itemList (j : Json) (k : String) : Except String (List GItem) :=
   match j.getObjVal? k with
   | .error _ => pure []
@@ -144,6 +164,11 @@ def handlers : List (String × Handler) := [
     let ps ← (← getArr j "groups").toList.mapM parseParams
     let f ← parseFilters (← j.getObjVal? "filters")
     pure (exceptToJson natsToJson (query k (ps.map mkGroup) f))),
+  ("queryItems", fun j => do
+    let k ← parseKind (← getStr j "method")
+    let gs ← (← getArr j "groups").toList.mapM parseGroup
+    let f ← parseFilters (← j.getObjVal? "filters")
+    pure (exceptToJson natsToJson (query k gs f))),
   ("spec", fun j => do
     let k ← parseKind (← getStr j "method")
     let ps ← (← getArr j "groups").toList.mapM parseParams
